@@ -100,6 +100,12 @@ def apply_spec(spec, vecs):
 ID_FN = (0, (1,))
 
 
+def der3(v):
+    """definition of an internal derived attribute: (inputs, fn, inverse fn or None).  Round 5: a derived attribute's link
+    may declare its inverse (ComponentLink(..., inverse=...)); older cases carry pairs."""
+    return (v[0], v[1], v[2] if len(v) > 2 else None)
+
+
 def tup(x):
     if isinstance(x, (list, tuple)):
         return tuple(tup(y) for y in x)
@@ -113,7 +119,7 @@ def norm_case(case):
                           coords=(None if d['coords'] is None else tuple(d['coords']))) for d in case['datasets']]
     ders = case.get('ders', {})
     if not isinstance(ders, dict):
-        ders = {tuple(k): (tup(fr), tup(fn)) for k, fr, fn in ders}
+        ders = {tuple(x[0]): ((tup(x[1]), tup(x[2])) if len(x) < 4 or x[3] is None else (tup(x[1]), tup(x[2]), tup(x[3]))) for x in ders}
     c['ders'] = ders
     if isinstance(case['vals'], dict):
         vals = {}
@@ -140,7 +146,7 @@ def norm_case(case):
 def case_json(case):
     c = dict(case)
     c['vals'] = [[list(k), list(v)] for k, v in sorted(case['vals'].items())]
-    c['ders'] = [[list(k), fr, fn] for k, (fr, fn) in sorted(case.get('ders', {}).items())]
+    c['ders'] = [[list(k)] + list(der3(v)) for k, v in sorted(case.get('ders', {}).items())]
     return c
 
 
@@ -272,8 +278,8 @@ def w_op(pool, o):
 
 
 def w_der(case, c):
-    fr, fn = case['ders'][c]
-    return w_link(2000 + 10 * c[0] + c[1], fr, c, fn)
+    fr, fn, inv = der3(case['ders'][c])
+    return (0, [w_link(2000 + 10 * c[0] + c[1], fr, c, fn), ((1, [w_fn(inv)]) if inv is not None and len(fr) == 1 else (0, []))])
 
 
 def initial_own(ds):
@@ -376,12 +382,13 @@ class Impl:
         already a component or an input is not a main/coordinate component (the model's result code 3)"""
         from glue.core.component_link import ComponentLink
         D = self.data[d]
-        fr, fn = self.case['ders'][(d, k)]
+        fr, fn, inv = der3(self.case['ders'][(d, k)])
         c = self.getcid((d, k))
         base = D.main_components + D.coordinate_components
         if c in D.components or not all(self.getcid(f) in base for f in fr):
             return
-        D.add_component_link(ComponentLink([self.getcid(f) for f in fr], c, using=mkfn(fn)))
+        D.add_component_link(ComponentLink([self.getcid(f) for f in fr], c, using=mkfn(fn),
+                                           inverse=(mkfn(inv) if inv is not None and len(fr) == 1 else None)))
 
     def getcid(self, key):
         if key not in self.cid:
@@ -555,8 +562,10 @@ class Impl:
         from glue.core.link_helpers import LinkCollection
         ok = set()
         for D in self.dc.data:
-            for l in D.links:       # coordinate links + the links of the internal derived components
+            for l in D.links:       # coordinate links + the links of the internal derived components (+ their inverses)
                 ok.add(id(l))
+                if l.inverse is not None:
+                    ok.add(id(l.inverse))
         for e in self.dc.external_links:
             subs = list(e) if isinstance(e, LinkCollection) else [e]
             for l in subs:
@@ -592,7 +601,7 @@ class Abstract:
         self.own = {ds['id']: set(initial_own(ds)) for ds in case['datasets']}
         self.coords = {ds['id']: ds['coords'] is not None for ds in case['datasets']}
         self.spec = {ds['id']: ds for ds in case['datasets']}
-        self.der = {ds['id']: {(ds['id'], k): case['ders'][(ds['id'], k)] for k in ds.get('derived', [])} for ds in case['datasets']}
+        self.der = {ds['id']: {(ds['id'], k): der3(case['ders'][(ds['id'], k)]) for k in ds.get('derived', [])} for ds in case['datasets']}
         self.delay = 0
         self.valid = True     # every link was added over live attributes
 
@@ -603,12 +612,12 @@ class Abstract:
         """an attribute goes, and with it the derived attributes computed from it"""
         self.own[d].discard(c)
         self.der[d].pop(c, None)
-        for y in [y for y, (fr, fn) in self.der[d].items() if c in fr]:
+        for y in [y for y, (fr, fn, inv) in self.der[d].items() if c in fr]:
             del self.der[d][y]
 
     def fixed_values(self, d):
         """the values of d's own derived attributes (components are read as components)"""
-        return {y: apply_spec(fn, [tuple(self.case['vals'][f]) for f in fr]) for y, (fr, fn) in self.der[d].items()}
+        return {y: apply_spec(fn, [tuple(self.case['vals'][f]) for f in fr]) for y, (fr, fn, inv) in self.der[d].items()}
 
     def entry_live(self, i):
         return all(self.live(c) for fr, to, fn in entry_flat_links(self.case['pool'], i) for c in list(fr) + [to])
@@ -624,9 +633,9 @@ class Abstract:
                 self.own[o[1]].add((o[1], o[2]))
         elif k == 'addderived':
             c = (o[1], o[2])
-            fr, fn = self.case['ders'][c]
+            fr, fn, inv = der3(self.case['ders'][c])
             if c not in self.own[o[1]] and c not in self.der[o[1]] and all(f in self.own[o[1]] for f in fr):
-                self.der[o[1]][c] = (fr, fn)
+                self.der[o[1]][c] = (fr, fn, inv)
         elif k == 'removecomp':
             self.remove_attr(o[1], (o[1], o[2]))
         elif k == 'adddata':
@@ -644,13 +653,19 @@ class Abstract:
                 self.delay -= 1
 
     def links(self, ext_ids):
-        """links currently in force: coordinate links of member datasets + registered entries (+ inverses)"""
+        """links currently in force: coordinate links and derived-attribute links of member datasets + registered entries
+        (+ the inverse of every one of them that has an inverse)"""
         out = []
         for d, ds in self.spec.items():
             if self.member[d] and self.coords[d]:
                 out += coord_links(ds)
             if self.member[d]:
-                out += [(tuple(fr), y, fn) for y, (fr, fn) in sorted(self.der[d].items())]
+                # the dataset's own derived-attribute links are registered links too (DataCollection.links lists them):
+                # each one, and the inverse of each one that declares an inverse
+                for y, (fr, fn, inv) in sorted(self.der[d].items()):
+                    out.append((tuple(fr), y, fn))
+                    if inv is not None and len(fr) == 1:
+                        out.append(((y,), fr[0], inv))
         for i in ext_ids:
             if i >= 0:
                 out += entry_flat_links(self.case['pool'], i)
@@ -857,8 +872,13 @@ def gen_world(rng, nds, small=False):
             if rng.random() < 0.6:
                 m = rng.choice([1, 1, 2])
                 fr = tuple(rng.choice(base) for _ in range(m))
-                fn = rand_fn(rng, m)
-                ders[(d, k)] = (fr, fn)
+                if m == 1 and rng.random() < 0.6:
+                    # an invertible unit conversion: the link declares its inverse
+                    fn = rand_fn(rng, 1, unit=True)
+                    ders[(d, k)] = (fr, fn, inv_unit(fn))
+                else:
+                    fn = rand_fn(rng, m)
+                    ders[(d, k)] = (fr, fn)
                 vals[(d, k)] = apply_spec(fn, [vals[f] for f in fr])
                 if rng.random() < 0.6:
                     derived.append(k)
@@ -1143,8 +1163,8 @@ def small_world():
             (2, 0): (0, 1), (2, 2): (-2, 1)}
     ders = {(0, 6): (((0, 2),), (1, (2,))),        # y = 2*x + 1 over the main attribute
             (0, 7): (((0, 0),), (3, (-1,)))}       # over the pixel axis, added by the history
-    for c, (fr, fn) in ders.items():
-        vals[c] = apply_spec(fn, [vals[f] for f in fr])
+    for c, v in ders.items():
+        vals[c] = apply_spec(v[1], [vals[f] for f in v[0]])
     pool = [{'kind': 'same', 'c1': (0, 2), 'c2': (1, 2)},
             {'kind': 'single', 'from': ((1, 0),), 'to': (2, 2), 'fn': (1, (2,)), 'inv': None},
             {'kind': 'single', 'from': ((0, 2),), 'to': (1, 1), 'fn': (1, (-1,)), 'inv': (1, (-1,))},
@@ -1188,6 +1208,60 @@ def stream_exhaustive(R):
                 cases.append({'datasets': datasets, 'vals': vals, 'ders': ders, 'pool': pool, 'ops': full, 'sel': ((0, 2), 0)})
     run_histories(R, 'histories_exhaustive', cases, True,
                   'all operation sequences: %s' % '; '.join('length<=%d over %d operations' % (m, len(a)) for a, m in plans))
+
+
+# ---------------------------------------------------------------------- stream: derived attributes whose link declares an inverse
+def derived_inverse_world():
+    """D0 owns x and y = 1 - x (ComponentLink(..., inverse=...)); z = x + 2 (inverse declared) and, in D1, w = 2*b (no
+    inverse) are added by the histories.  The pool links OTHER datasets to the derived attributes only, never to x: the way
+    from D1 / D2 to x leads through the inverse of a dataset-internal link."""
+    datasets = [{'id': 0, 'n': 2, 'member': True, 'main': [2], 'coords': None, 'derived': [6]},
+                {'id': 1, 'n': 2, 'member': True, 'main': [2], 'coords': None, 'derived': []},
+                {'id': 2, 'n': 3, 'member': True, 'main': [2], 'coords': None, 'derived': []}]
+    vals = {(0, 0): (0, 1), (0, 2): (3, -1), (1, 0): (0, 1), (1, 2): (4, 0), (2, 0): (0, 1, 2), (2, 2): (-2, 1, 5)}
+    ders = {(0, 6): (((0, 2),), (1, (-1,)), (1, (-1,))),
+            (0, 7): (((0, 2),), (2, (1,)), (-2, (1,))),
+            (1, 6): (((1, 2),), (0, (2,)))}
+    for c, v in ders.items():
+        vals[c] = apply_spec(v[1], [vals[f] for f in v[0]])
+    y, z, w, b, c = (0, 6), (0, 7), (1, 6), (1, 2), (2, 2)
+    pool = [{'kind': 'same', 'c1': y, 'c2': b},
+            {'kind': 'single', 'from': (b,), 'to': y, 'fn': (1, (-1,)), 'inv': (1, (-1,))},
+            {'kind': 'single', 'from': (y,), 'to': b, 'fn': (0, (2,)), 'inv': None},
+            {'kind': 'single', 'from': (c,), 'to': b, 'fn': (-1, (1,)), 'inv': (1, (1,))},      # a dataset chained behind D1
+            {'kind': 'same', 'c1': z, 'c2': c},
+            {'kind': 'twoway', 'c1': y, 'c2': c, 'f': (0, (2,)), 'g': (1, (1,))},
+            {'kind': 'same', 'c1': w, 'c2': c}]
+    return datasets, vals, ders, pool
+
+
+def stream_derived_inverse(R):
+    datasets, vals, ders, pool = derived_inverse_world()
+    alpha_full = [('addlink', i) for i in range(7)] + [
+        ('removelink', 0), ('addderived', 0, 7), ('addderived', 1, 6), ('removecomp', 0, 2), ('removecomp', 0, 6),
+        ('removedata', 0), ('adddata', 0), ('delaybegin',), ('delayend',)]
+    alpha_small = [('addlink', 0), ('addlink', 1), ('addlink', 3), ('addlink', 4), ('addderived', 0, 7), ('removecomp', 0, 6),
+                   ('removelink', 0), ('removedata', 0), ('adddata', 0)]
+    plans = R.pick([(alpha_full, 2), (alpha_small, 3)], [(alpha_full, 3), (alpha_small, 4)])
+    seen = set()
+    cases = []
+    for alpha, maxlen in plans:
+        for ln in range(1, maxlen + 1):
+            for ops in itertools.product(alpha, repeat=ln):
+                if ops in seen:
+                    continue
+                seen.add(ops)
+                depth = 0
+                for o in ops:
+                    if o[0] == 'delaybegin':
+                        depth += 1
+                    elif o[0] == 'delayend' and depth > 0:
+                        depth -= 1
+                full = list(ops) + [('delayend',)] * depth
+                cases.append({'datasets': datasets, 'vals': vals, 'ders': ders, 'pool': pool, 'ops': full, 'sel': ((0, 2), 0)})
+    run_histories(R, 'derived_inverse', cases, True,
+                  'derived attributes whose link declares an inverse, other datasets linked to the derived attribute only: all operation '
+                  'sequences, %s' % '; '.join('length<=%d over %d operations' % (m, len(a)) for a, m in plans))
 
 
 # ---------------------------------------------------------------------- stream: all small link graphs
@@ -1851,6 +1925,8 @@ def run(R):
     lap(['graphs'])
     stream_exhaustive(R)
     lap(['histories_exhaustive'])
+    stream_derived_inverse(R)
+    lap(['derived_inverse'])
     stream_random(R)
     lap(['histories_random', 'histories_dense'])
 
